@@ -231,8 +231,9 @@ func runRegisterImpl(op M) M {
 				opts.Attestation = webauthn.AttestationConveyancePreference(pick(NewRNG(uint64(num(in["timeoutMs"]))), []string{"none", "direct", "indirect", "enterprise"}))
 			}
 		}
-		cred := &webauthn.PublicKeyCreationCredential{RawID: unhx(op["rawId"].(string)),
-			Response: webauthn.AuthenticatorAttestationResponse{ClientDataJSON: unhx(op["cdj"].(string)), AttestationObject: unhx(op["attObj"].(string))}}
+		fields := oneBuffer(unhx(op["rawId"].(string)), unhx(op["attObj"].(string)), unhx(op["cdj"].(string)))
+		cred := &webauthn.PublicKeyCreationCredential{RawID: fields[0],
+			Response: webauthn.AuthenticatorAttestationResponse{ClientDataJSON: fields[2], AttestationObject: fields[1]}}
 		res, err := rp.VerifyRegistrationCeremony(context.Background(), opts, cred, verifyOptsFromOp(op)...)
 		out := M{"calls": st.calls, "store": st.dump()}
 		if out["calls"] == nil {
@@ -280,9 +281,12 @@ func runAuthImplOn(rp *webauthn.RelyingParty, st *faultStore, op M) M {
 				opts.Extensions = map[string]interface{}{"appid": "https://example.com/appid.json", "uvm": true}
 			}
 		}
-		cred := &webauthn.PublicKeyAssertionCredential{RawID: unhx(op["rawId"].(string)),
-			Response: webauthn.AuthenticatorAssertionResponse{ClientDataJSON: unhx(op["cdj"].(string)), AuthenticatorData: unhx(op["authData"].(string)),
-				Signature: unhx(op["sig"].(string)), UserHandle: unhx(op["userHandle"].(string))}}
+		// the response fields as a zero-copy decoder of a binary framing hands them over: consecutive sub-slices of ONE receive buffer
+		// (each field's capacity runs on into the fields behind it), so a callee that appends to a field writes into its neighbours
+		fields := oneBuffer(unhx(op["rawId"].(string)), unhx(op["authData"].(string)), unhx(op["sig"].(string)), unhx(op["cdj"].(string)), unhx(op["userHandle"].(string)))
+		cred := &webauthn.PublicKeyAssertionCredential{RawID: fields[0],
+			Response: webauthn.AuthenticatorAssertionResponse{ClientDataJSON: fields[3], AuthenticatorData: fields[1],
+				Signature: fields[2], UserHandle: fields[4]}}
 		res, err := rp.VerifyAuthenticationCeremony(context.Background(), opts, cred)
 		out := M{"calls": st.calls, "store": st.dump()}
 		if out["calls"] == nil {
@@ -453,4 +457,27 @@ func descriptorType(op M, i int) webauthn.PublicKeyCredentialType {
 		return webauthn.PublicKeyCredentialType(ts[i])
 	}
 	return "public-key"
+}
+
+// oneBuffer lays the given byte strings out one after the other in a single backing array and returns them as sub-slices of it
+// (nil stays nil: "absent" and "empty" are different inputs); every returned slice has spare capacity reaching to the end of the array
+func oneBuffer(parts ...[]byte) [][]byte {
+	total := 0
+	for _, p := range parts {
+		total += len(p)
+	}
+	buf := make([]byte, 0, total+32)
+	for _, p := range parts {
+		buf = append(buf, p...)
+	}
+	buf = append(buf, make([]byte, 32)...)
+	out := make([][]byte, len(parts))
+	off := 0
+	for i, p := range parts {
+		if p != nil {
+			out[i] = buf[off : off+len(p)]
+		}
+		off += len(p)
+	}
+	return out
 }
